@@ -69,3 +69,6 @@ Definition follow_of {Vr} `{EqDec Vr} (G : cfg Vr) (A : Vr) : list (option N) :=
 From PFL Require Export Spec.Pda Model.Pda Oracle.PdaAccept Spec.Enfa Model.Enfa.
 Definition first_diff (f g : list N -> bool) (ws : list (list N)) : option (list N) :=
   find (fun w => negb (Bool.eqb (f w) (g w))) ws.
+
+(* ---- C18 ---- *)
+From PFL Require Export Model.Feat.
